@@ -21,7 +21,7 @@ use rustc_middle::mir::{
     self, AggregateKind, BasicBlock, Body, Const, ConstValue, Operand, Place, ProjectionElem,
     Rvalue, StatementKind, TerminatorKind,
 };
-use rustc_middle::ty::print::{with_no_trimmed_paths, with_resolve_crate_name};
+use rustc_middle::ty::print::{with_no_trimmed_paths, with_no_visible_paths, with_resolve_crate_name};
 use rustc_middle::ty::{self, Instance, Ty, TyCtxt, TypingEnv};
 use rustc_span::{ExpnKind, Span};
 use std::collections::BTreeMap;
@@ -116,10 +116,10 @@ struct Cx<'tcx> {
 }
 
 fn path<'tcx>(tcx: TyCtxt<'tcx>, d: DefId) -> String {
-    with_resolve_crate_name!(with_no_trimmed_paths!(tcx.def_path_str(d)))
+    with_no_visible_paths!(with_resolve_crate_name!(with_no_trimmed_paths!(tcx.def_path_str(d))))
 }
 fn tystr<'tcx>(t: Ty<'tcx>) -> String {
-    with_resolve_crate_name!(with_no_trimmed_paths!(t.to_string()))
+    with_no_visible_paths!(with_resolve_crate_name!(with_no_trimmed_paths!(t.to_string())))
 }
 
 fn span_json<'tcx>(tcx: TyCtxt<'tcx>, sp: Span) -> J {
